@@ -167,7 +167,7 @@ fn run_client(argv: &[String]) -> ! {
     };
     let results = run_ops(conn.clone(), &ops);
     // Connection::address() is documented as the way to open another connection to the same service
-    let reconnect = if transport == "address" {
+    let reconnect = if transport == "address" || transport == "activate" {
         let a = conn.read().unwrap().address();
         match varlink::Connection::with_address(&a) {
             Ok(c2) => {
@@ -194,7 +194,7 @@ fn free_tcp_port() -> u16 {
 }
 
 fn c16(args: &Args) -> ! {
-    let mut rep = Report::new("C16", "configuration matrix, one OS schedule per case: (1) transports {unix path, unix path;mode=0600, unix:@abstract, tcp:127.0.0.1:port, with_activate(service), with_bridge(service --stdio)} x every sequence of client operations of length<=2 (thorough 3) over {GetInfo, Echo, Fail, Stream+drain, oneway Echo, unknown interface} through the real client API in a capped subprocess, results compared with an in-memory run of the same operations against the same interface; (2) activation contract read back from the spawned service (descriptor 3 listening unix socket, LISTEN_FDS/LISTEN_FDNAMES/LISTEN_PID/VARLINK_ADDRESS) with the parent's lowest free descriptor {3, >3}; (1b) both filesystem socket paths carry a stale socket file when the server starts; (3) server side: LISTEN_FDS x LISTEN_PID x LISTEN_FDNAMES x address scheme (576 cases, all in both tiers) against the sd_listen_fds reference; (4) address strings scheme x tail: client and server agree on InvalidAddress; non-trivial = distinct (part, configuration, sequence)");
+    let mut rep = Report::new("C16", "configuration matrix, one OS schedule per case: (1) transports {unix path, unix path;mode=0600, unix:@abstract, tcp:127.0.0.1:port, with_activate(service), with_bridge(service --stdio)} x every sequence of client operations of length<=2 (thorough 3) over {GetInfo, Echo, Fail, Stream+drain, oneway Echo, unknown interface} through the real client API in a capped subprocess, results compared with an in-memory run of the same operations against the same interface; (2) activation contract read back from the spawned service (descriptor 3 listening unix socket, LISTEN_FDS/LISTEN_FDNAMES/LISTEN_PID/VARLINK_ADDRESS) with the parent's lowest free descriptor {3, >3}; (1b) both filesystem socket paths carry a stale socket file when the server starts; address and with_activate transports open a second connection through Connection::address(); (2b) a foreign activator hands a blocking / O_NONBLOCK listening socket as descriptor 3 to a service running listen() with the default configuration, three clients in a row must be served; (3) server side: LISTEN_FDS x LISTEN_PID x LISTEN_FDNAMES x address scheme (576 cases, all in both tiers) against the sd_listen_fds reference; (4) address strings scheme x tail: client and server agree on InvalidAddress; non-trivial = distinct (part, configuration, sequence)");
     let dir = tempfile::Builder::new().prefix("px16").tempdir_in("/dev/shm").or_else(|_| tempfile::tempdir()).unwrap();
     let d = dir.path().to_path_buf();
     let replay = args.replay_case();
@@ -282,7 +282,7 @@ fn c16(args: &Args) -> ! {
                     }
                     v
                 }
-                if kind == "address" && v["reconnect"]["result"] != json!([{"ok": {"v": "again"}}]) {
+                if (kind == "address" || kind == "activate") && v["reconnect"]["result"] != json!([{"ok": {"v": "again"}}]) {
                     rep.violation(&format!("C16/{}/reconnect-through-address", tname), &format!("a second connection opened with Connection::address() of the first: {}", v["reconnect"]), case.clone());
                 }
                 if canon(&v["results"]) != canon(&Value::Array(reference.clone())) {
@@ -293,6 +293,69 @@ fn c16(args: &Args) -> ! {
     }
     drop(servers);
     // ---- (2) activation contract
+    // ---- (2b) a systemd-style activator: the listening socket is created here, handed over as descriptor 3 (blocking or
+    // with O_NONBLOCK, which survives exec) to a service that runs listen() with the default configuration; clients come later
+    if want_part("foreign-activator") && (args.shard == 1 % args.nshards || replay.is_some()) {
+        for nonblock in [false, true] {
+            for fdnames in [Some("varlink"), None] {
+                let case = json!({"part": "foreign-activator", "listener_nonblocking": nonblock, "listen_fdnames": fdnames});
+                if let Some(r) = &replay {
+                    if *r != case {
+                        continue;
+                    }
+                }
+                rep.eval(Some(&case.to_string()));
+                let path = d.join(format!("act-{}-{}", nonblock as u8, fdnames.is_some() as u8));
+                let _ = std::fs::remove_file(&path);
+                let l = std::os::unix::net::UnixListener::bind(&path).unwrap_or_else(|e| machinery(&format!("bind: {}", e)));
+                l.set_nonblocking(nonblock).unwrap();
+                let lfd = std::os::unix::io::AsRawFd::as_raw_fd(&l);
+                let addr = format!("unix:{}", path.display());
+                // `exec` keeps the pid, so LISTEN_PID=$$ names the service itself
+                let script = format!("LISTEN_PID=$$ exec {} serve --iface org.verif.a --idle 0 --varlink={}", svc.display(), addr);
+                let mut cmd = Command::new("/bin/sh");
+                cmd.arg("-c").arg(&script).env("LISTEN_FDS", "1").stdin(Stdio::null()).stdout(Stdio::null()).stderr(Stdio::null());
+                match fdnames {
+                    Some(n) => {
+                        cmd.env("LISTEN_FDNAMES", n);
+                    }
+                    None => {
+                        cmd.env_remove("LISTEN_FDNAMES");
+                    }
+                }
+                unsafe {
+                    use std::os::unix::process::CommandExt;
+                    cmd.pre_exec(move || {
+                        if lfd != 3 {
+                            if libc::dup2(lfd, 3) < 0 {
+                                return Err(std::io::Error::last_os_error());
+                            }
+                        } else {
+                            let fl = libc::fcntl(3, libc::F_GETFD);
+                            libc::fcntl(3, libc::F_SETFD, fl & !libc::FD_CLOEXEC);
+                        }
+                        Ok(())
+                    });
+                }
+                let child = cmd.spawn().unwrap_or_else(|e| machinery(&format!("cannot spawn the activated service: {}", e)));
+                let _svc = Proc::new(child);
+                drop(l);
+                let mut results = vec![];
+                for k in 0..3 {
+                    let mut c = Command::new(self_exe());
+                    c.args(["run-client", "--transport", "address", "--target", &addr, "--ops", &format!("[\"echo:c{}\"]", k)]);
+                    let (status, out, _e) = run_capped(c, None, Duration::from_secs(6));
+                    let v: Value = serde_json::from_slice(&out).unwrap_or(Value::Null);
+                    results.push(json!({"status": status, "results": v["results"], "connect_error": v["connect_error"]}));
+                }
+                rep.outcome(&format!("{:?}", results.iter().map(|r| r["status"].clone()).collect::<Vec<_>>()));
+                let ok = results.iter().enumerate().all(|(k, r)| r["status"] == "exit:0" && r["results"] == json!([{"ok": {"v": format!("c{}", k)}}]));
+                if !ok {
+                    rep.violation(&format!("C16/foreign-activator/{}", if nonblock { "nonblocking-listener" } else { "blocking-listener" }), &format!("three clients in a row against a service activated with descriptor 3 ({}): {}", if nonblock { "O_NONBLOCK set" } else { "blocking" }, Value::Array(results)), case);
+                }
+            }
+        }
+    }
     if want_part("activation") && args.shard == 0 {
         for occupy in [false, true] {
             let pf = d.join(format!("probe{}", occupy as u8));
